@@ -10,4 +10,5 @@ import TeosVerif.Props.C12
 #print axioms Teos.C12.block_path_self_wait
 #print axioms Teos.C12.bad_states_reachable
 #print axioms Teos.C12.poll_partial_progress_kept
+#print axioms Teos.C12.a_successful_poll_ends_the_outage
 #print axioms Teos.C12.outage_noticed_means_flag_down
